@@ -173,7 +173,7 @@ theorem holdsC19_model_sched_gen (pg : Program) (gens : List (List String)) (c :
     (htrack : ∀ j, trackOf pg.spec (θseq pg.prog pg.θ0 pg.opt0 0 j) = θseq pg.prog pg.θ0 pg.opt0 0 j)
     (outcomes : List (Val × Bool × Bool))
     (houtc : ∀ q, c * q < pg.solved.i → outcomes.getD q (none, false, false) = outq q) :
-    holdsC19 c pg.n pg.θ0 outcomes
+    holdsC19 c pg.n pg.n pg.θ0 outcomes
       (pg.solved.calls.map (·.2)) false (modelObs pg gens pg.solved) = none := by
   have hoA := outAt_sched pg.prog pg.θ0 pg.opt0 c stq outq hce hc hvd
   have hcR := callsRef_sched pg.prog pg.θ0 pg.opt0 c hce hc
@@ -386,7 +386,7 @@ theorem holdsC19_model_sched (pg : Program) (gens : List (List String)) (c : Nat
     (hinit : initVState pg.val = some (stq 0))
     (hnan : ∀ j, j ≤ pg.n → hasNaN (θseq pg.prog pg.θ0 pg.opt0 0 j) = false)
     (htrack : ∀ j, trackOf pg.spec (θseq pg.prog pg.θ0 pg.opt0 0 j) = θseq pg.prog pg.θ0 pg.opt0 0 j) :
-    holdsC19 c pg.n pg.θ0 ((List.range (pg.n + 1)).map outq)
+    holdsC19 c pg.n pg.n pg.θ0 ((List.range (pg.n + 1)).map outq)
       (pg.solved.calls.map (·.2)) false (modelObs pg gens pg.solved) = none := by
   apply holdsC19_model_sched_gen pg gens c stq outq hce hc hvd hinit hnan htrack
   intro q hq
@@ -402,33 +402,33 @@ theorem holdsC19_model (pg : Program) (gens : List (List String)) (c : Nat)
     (script : List (Val × Bool × Bool)) (hval : pg.val = some ⟨c, .scripted script⟩) (hc : 0 < c)
     (hnan : ∀ j, j ≤ pg.n → hasNaN (θseq pg.prog pg.θ0 pg.opt0 0 j) = false)
     (htrack : ∀ j, trackOf pg.spec (θseq pg.prog pg.θ0 pg.opt0 0 j) = θseq pg.prog pg.θ0 pg.opt0 0 j) :
-    holdsC19 c pg.n pg.θ0 ((List.range (pg.n + 1)).map (scriptOut script))
+    holdsC19 c pg.n pg.n pg.θ0 ((List.range (pg.n + 1)).map (scriptOut script))
       (pg.solved.calls.map (·.2)) false (modelObs pg gens pg.solved) = none := by
   apply holdsC19_model_sched pg gens c VState.scripted (scriptOut script) _ hc _ _ hnan htrack
   · simp [Program.prog, hval]
   · intro q; simp [Program.prog, hval, validateOf, scriptOut]
   · simp [hval, initVState]
 
-theorem vlAfter_snoc (s : VLCore) (l : List Rat) (v : Rat) :
-    vlAfter s (l ++ [v]) = vlNext (vlAfter s l) v := by
+theorem vlAfterV_snoc (s : VLCore) (l : List Val) (v : Val) :
+    vlAfterV s (l ++ [v]) = vlNextV (vlAfterV s l) v := by
   induction l generalizing s with
   | nil => rfl
-  | cons w l ih => simp [vlAfter, ih]
+  | cons w l ih => simp [vlAfterV, ih]
 
 /-- the criterion of the `q`-th invocation of the model of `ValidationLoss` inside the loop: its
     loss on the parameters after the update of iteration `c·q` and on the `q`-th batch of its own
-    generators -/
-def vlVal (pg : Program) (c : Nat) (L : LossDef) (bs : List Batch) (q : Nat) : Rat :=
-  (lossTotal L (θseq pg.prog pg.θ0 pg.opt0 (0 : Nat) (c * q + 1)) (bs.getD q ⟨[]⟩)).getD 0
+    generators (possibly NaN) -/
+def vlVal (pg : Program) (c : Nat) (L : LossDef) (bs : List Batch) (q : Nat) : Val :=
+  lossTotal L (θseq pg.prog pg.θ0 pg.opt0 (0 : Nat) (c * q + 1)) (bs.getD q ⟨[]⟩)
 
 /-- its scalar state before the `q`-th invocation -/
 def vlCore (pg : Program) (c : Nat) (L : LossDef) (bs : List Batch) (q : Nat) : VLCore :=
-  vlAfter vlInit ((List.range q).map (vlVal pg c L bs))
+  vlAfterV vlInit ((List.range q).map (vlVal pg c L bs))
 
 /-- the outcome of its `q`-th invocation -/
 def vlOut (pg : Program) (c : Nat) (L : LossDef) (bs : List Batch) (pat : Nat) (early : Bool) (q : Nat) :
     Val × Bool × Bool :=
-  (some (vlVal pg c L bs q), vlImproved (vlCore pg c L bs q) (vlVal pg c L bs q),
+  (vlVal pg c L bs q, vlImprovedV (vlCore pg c L bs q) (vlVal pg c L bs q),
     vlStop pat early (vlCore pg c L bs q))
 
 /-- **`Holds.C19` is satisfied by every model trace with the model of `ValidationLoss`** as
@@ -440,42 +440,55 @@ theorem holdsC19_model_vl (pg : Program) (gens : List (List String)) (c : Nat) (
     (hc : 0 < c)
     (hnan : ∀ j, j ≤ pg.n → hasNaN (θseq pg.prog pg.θ0 pg.opt0 0 j) = false)
     (htrack : ∀ j, trackOf pg.spec (θseq pg.prog pg.θ0 pg.opt0 0 j) = θseq pg.prog pg.θ0 pg.opt0 0 j) :
-    holdsC19 c pg.n pg.θ0 ((List.range (pg.n + 1)).map (vlOut pg c L bs pat early))
+    holdsC19 c pg.n pg.n pg.θ0 ((List.range (pg.n + 1)).map (vlOut pg c L bs pat early))
       (pg.solved.calls.map (·.2)) false (modelObs pg gens pg.solved) = none := by
   apply holdsC19_model_sched pg gens c (fun q => VState.vl ⟨q, vlCore pg c L bs q⟩)
     (vlOut pg c L bs pat early) _ hc _ _ hnan htrack
   · simp [Program.prog, hval]
   · intro q
-    have hnext : vlCore pg c L bs (q + 1) = vlNext (vlCore pg c L bs q) (vlVal pg c L bs q) := by
+    have hnext : vlCore pg c L bs (q + 1) = vlNextV (vlCore pg c L bs q) (vlVal pg c L bs q) := by
       unfold vlCore
-      rw [List.range_succ, List.map_append, List.map_cons, List.map_nil, vlAfter_snoc]
+      rw [List.range_succ, List.map_append, List.map_cons, List.map_nil, vlAfterV_snoc]
     simp [Program.prog, hval, validateOf, VL.call, vlConf, vlOut, hnext, vlVal]
-  · simp [hval, initVState, vlCore, vlAfter]
+  · simp [hval, initVState, vlCore, vlAfterV]
 
 /-! ### the built-in `ValidationLoss`: what is proved, what is not -/
 
-/-- The improvement flags that `Holds.C19` derives from a sequence of criteria by the wording of
-    the property (strict new minimum) are the flags of the model of `ValidationLoss` — for every
-    sequence of values and every position. -/
-theorem vlOutcomes_improved (patience : Nat) (early : Bool) (vs : List Rat) (j : Nat) (hj : j < vs.length) :
-    ((SolveAux.vlOutcomes patience early vs).getD j (none, false, false)).2.1 =
-      vlImproved (vlAfter vlInit (vs.take j)) (vs.getD j 0) := by
-  unfold SolveAux.vlOutcomes
-  simp only [List.getD_eq_getElem?_getD, List.getElem?_map, List.getElem?_range hj, Option.map_some,
-    Option.getD_some]
-  cases h : vlImproved (vlAfter vlInit (vs.take j)) (vs[j]?.getD 0) with
+/-- The improvement flags that `Holds.C19` derives from a sequence of (NaN-free) criteria by the
+    wording of the property (strict new minimum) are the flags of the model of `ValidationLoss` —
+    for every sequence of values and every position (`improvedFn_some`, `vlOutcomes_improved`). -/
+theorem improvedFn_some (vs : List Rat) (j : Nat) (hj : j < vs.length) :
+    (match (vs.map some).getD j none with
+      | none => false
+      | some v => ((vs.map some).take j).all (fun x => match x with | none => true | some y => decide (v < y))) =
+    vlImproved (vlAfter vlInit (vs.take j)) vs[j] := by
+  have e1 : (vs.map some).getD j none = some vs[j] := by
+    simp [List.getD_eq_getElem?_getD, List.getElem?_eq_getElem hj]
+  rw [e1]
+  simp only [← List.map_take, List.all_map]
+  cases h : vlImproved (vlAfter vlInit (vs.take j)) vs[j] with
   | true =>
-    have := (vl_improved_iff_strict_min (vs.take j) (vs[j]?.getD 0)).1 h
-    simp only [List.all_eq_true, decide_eq_true_eq]
+    have := (vl_improved_iff_strict_min (vs.take j) vs[j]).1 h
+    simp only [List.all_eq_true, Function.comp, decide_eq_true_eq]
     exact this
   | false =>
-    cases h2 : (vs.take j).all (fun x => decide (vs[j]?.getD 0 < x)) with
-    | false => rfl
-    | true =>
-      have : vlImproved (vlAfter vlInit (vs.take j)) (vs[j]?.getD 0) = true := by
-        apply (vl_improved_iff_strict_min (vs.take j) (vs[j]?.getD 0)).2
-        simpa [List.all_eq_true] using h2
-      rw [h] at this; exact Bool.noConfusion this
+    rw [Bool.eq_false_iff]
+    intro h2
+    have : vlImproved (vlAfter vlInit (vs.take j)) vs[j] = true := by
+      apply (vl_improved_iff_strict_min (vs.take j) vs[j]).2
+      simpa [List.all_eq_true, Function.comp] using h2
+    rw [h] at this; exact Bool.noConfusion this
+
+theorem vlOutcomes_improved (patience : Nat) (early : Bool) (vs : List Rat) (j : Nat) (hj : j < vs.length) :
+    ((SolveAux.vlOutcomes patience early (vs.map some)).getD j (none, false, false)).2.1 =
+      vlImproved (vlAfter vlInit (vs.take j)) (vs.getD j 0) := by
+  have hj' : j < (vs.map some).length := by simpa using hj
+  have e0 : vs.getD j 0 = vs[j] := by simp [List.getD_eq_getElem?_getD, List.getElem?_eq_getElem hj]
+  rw [e0, ← improvedFn_some vs j hj]
+  unfold SolveAux.vlOutcomes
+  simp only [List.getD_eq_getElem?_getD, List.getElem?_map, List.getElem?_range hj', Option.map_some,
+    Option.getD_some]
+  rfl
 
 /-- **Partial.**  Full statement wanted: for every program whose validation module is the model of
     `ValidationLoss`, `holdsC19VL c n θ0 patience early expected vbatches vbatches calls false
@@ -498,7 +511,7 @@ theorem holdsC19VL_model_partial (patience : Nat) (vs : List Rat)
     vlStop patience true (vlAfter vlInit vs) = true ∧
     (∀ m, m < vs.length → vlStop patience true (vlAfter vlInit (vs.take m)) = false) ∧
     (∀ j, j < vs.length →
-      ((SolveAux.vlOutcomes patience true vs).getD j (none, false, false)).2.1 =
+      ((SolveAux.vlOutcomes patience true (vs.map some)).getD j (none, false, false)).2.1 =
         vlImproved (vlAfter vlInit (vs.take j)) (vs.getD j 0)) :=
   ⟨(vl_first_stop patience vs hge hfirst).1, (vl_first_stop patience vs hge hfirst).2,
     fun j hj => vlOutcomes_improved patience true vs j hj⟩
@@ -530,7 +543,7 @@ theorem exScripted_θ (j : Nat) : θseq exScripted.prog exScripted.θ0 exScripte
     simp only [refLoop, refStep, ih]
     rfl
 
-example : holdsC19 2 5 [] ((List.range 6).map (scriptOut [(some 7, true, false), (some 8, false, true)]))
+example : holdsC19 2 5 5 [] ((List.range 6).map (scriptOut [(some 7, true, false), (some 8, false, true)]))
     (exScripted.solved.calls.map (·.2)) false (modelObs exScripted [] exScripted.solved) = none :=
   holdsC19_model exScripted [] 2 _ rfl (by decide)
     (fun j _ => by rw [exScripted_θ]; rfl) (fun j => by rw [exScripted_θ]; rfl)
